@@ -8,14 +8,15 @@
 // TRANSLATION RULES (see README.md for the long version)
 //
 // Roots (abstract locations; a root denotes a *region* of cells):
-//   RParam i    everything reachable, at entry, from parameter i (receiver = 0)
-//   RGlobal g   everything reachable from package-level variable "pkg.Name"
-//   RLocal k    objects allocated at syntactic site k of this function
-//               (new, make, &T{}, []T{}, big.NewInt, ff.NewElement, append,
-//               string->[]byte, a value-typed local array/struct variable, a
-//               by-value array/struct parameter copy) or, for a call site k,
-//               the objects returned by the callee
-//   RUnknown    anything (closures, recursion, unknown callee, go statement)
+//
+//	RParam i    everything reachable, at entry, from parameter i (receiver = 0)
+//	RGlobal g   everything reachable from package-level variable "pkg.Name"
+//	RLocal k    objects allocated at syntactic site k of this function
+//	            (new, make, &T{}, []T{}, big.NewInt, ff.NewElement, append,
+//	            string->[]byte, a value-typed local array/struct variable, a
+//	            by-value array/struct parameter copy) or, for a call site k,
+//	            the objects returned by the callee
+//	RUnknown    anything (closures, recursion, unknown callee, go statement)
 //
 // Points-to tracking (flow-insensitive, iterated to a fixpoint per function):
 //   - every reference-typed local variable has a set of roots; `x = e`,
@@ -29,17 +30,19 @@
 //   - callee summaries (roots the result may alias, whether it may be fresh,
 //     what a callee may store into its parameters) are substituted at the
 //     call site; the substituted non-local roots are emitted as the call's
-//     `hint`, which Effects.hints_ok re-checks against the callee's body.
+//     `hint`, which Effects.instr_ok re-checks against the callee's body.
 //
 // Instructions (flattened; flag must = statement is not nested in if/for/
 // switch/range/defer, so it runs on every path that reaches the end):
-//   IAlloc k              allocation site
-//   IRead roots           objects read (field/index/deref loads, library reads)
-//   IWrite roots fld      in-place mutation / field, index or pointer store;
-//                         library methods by the trusted table in sigs.go
-//   ICall f args k hint   call of a translated function
-//   IReturn roots         closure of the returned references (nil/error/value
-//                         results contribute nothing)
+//
+//	IAlloc k              allocation site
+//	IRead roots           objects read (field/index/deref loads, library reads)
+//	IWrite roots fld      in-place mutation / field, index or pointer store;
+//	                      library methods by the trusted table in sigs.go
+//	ICall f args k hint   call of a translated function
+//	IReturn direct reach  direct = what the returned references point to,
+//	                      reach = its closure under contains (nil/error/value
+//	                      results contribute nothing)
 //
 // Package-level `var x = e` initialisers become the synthetic function
 // "pkg.init#vars", init() functions "pkg.init#N"; both are listed in
